@@ -263,7 +263,13 @@ Final == /\ IsEv("final")
          /\ lv' = lv
          /\ UNCHANGED <<par, now, store, revAt, ops, fet, lat, kdec, role, pairs, sft, leaked>>
 
-MNext == Reset \/ Tick \/ Revoke \/ Bookkeeping \/ IFault \/ Restart \/ Start \/ Ms \/ Kms \/ Aead \/ Alloc \/ Free \/ Misuse \/ Ret \/ Final
+\* summary of a truly parallel stress run (harness counts the pairs; the clause is judged here): no (key, nonce) pair twice,
+\* and no encrypt failed
+Stress == /\ IsEv("stress")
+          /\ Report((IF ev.reused > 0 THEN {"C03.KeyNonceReused"} ELSE {}) \cup (IF ev.failed > 0 THEN {"C08.OperationFailedUnderConcurrency"} ELSE {}))
+          /\ UNCHANGED <<par, now, store, revAt, ops, fet, lat, kdec, lv, role, pairs, sft, leaked>>
+
+MNext == Stress \/ Reset \/ Tick \/ Revoke \/ Bookkeeping \/ IFault \/ Restart \/ Start \/ Ms \/ Kms \/ Aead \/ Alloc \/ Free \/ Misuse \/ Ret \/ Final
 MSpec == MInit /\ [][MNext]_mvars
 
 \* sanity of the monitor's own state
